@@ -137,11 +137,12 @@ Section Store.
                 end
     end.
 
-  (* onDiskStore.List on the names found in the directory: every regular file yields one entry, a name that is not an ID
-     (imap.InternalMessageIDFromString fails: logged) yields the zero ID; [every] = nothing else is filtered
-     (otherwise entries equal to the zero ID are dropped).  A file is named id.String(). *)
-  Definition list_names {name : Type} (parse : name -> option N) (every : bool) (names : list name) : list N :=
-    let l := map (fun n => match parse n with Some i => i | None => 0%N end) names in
+  (* onDiskStore.List on the names found in the directory: every regular file whose name is an ID yields that ID.  A name
+     that is not an ID (imap.InternalMessageIDFromString fails: logged) is skipped ([skip], C09-fix-3) or, before that fix,
+     listed under the zero ID.  [every] = nothing that parses is filtered (otherwise entries equal to the zero ID are
+     dropped).  A file is named id.String(). *)
+  Definition list_names {name : Type} (parse : name -> option N) (every skip : bool) (names : list name) : list N :=
+    let l := flat_map (fun n => match parse n with Some i => [i] | None => if skip then [] else [0%N] end) names in
     if every then l else filter (fun i => negb (N.eqb i 0)) l.
 
   Inductive gres := GOk (d : bytes) | GNoFile | GErr (r : rres).
